@@ -410,7 +410,9 @@ def run(ctx):
     # ---- structured headers
     shs = [b'sig1;sig=*AAAA;integrity="digest/mi-sha256-03";validity-url="https://example.com/v";cert-url="https://example.com/c";cert-sha256=*AAAA;date=1;expires=2',
            b'a, b;x=1;y="z", c', b'', b'   ', b'"\\', b'*' * 100, b'a;' * 500, b'a' * 5000, b'"' + b'\\"' * 2000 + b'"', b'1' * 400, b'-' * 50, b'a;b=*' + b'A' * 4001,
-           b',' * 300, b'a;a;a;a', b'a  ,  b', b'\xff\xfe', b'a;b=1.' + b'0' * 30]
+           b',' * 300, b'a;a;a;a', b'a  ,  b', b'\xff\xfe', b'a;b=1.' + b'0' * 30,
+           # the string ends right after a character that announces an item (or in the middle of one)
+           b'sig1;sig=?', b'a, ?', b'Accept;?', b'?', b'a;b=?', b'a;b=?1', b'?0', b'a;b=*', b'a;b="', b'a;b=-', b'a;b=', b'a;', b'a,', b'a;b=\\', b'a;b="\\', b'a;b=*A', b'a;b=@', b'a;b=#', b'a;b=(', b'(', b'a;b=:x:']
     for s in shs:
         for k in ('pl', 'll'):
             ops.append(f'c10.sh {k} {hexs(s)}')
